@@ -19,6 +19,7 @@ type Entry struct {
 	Body   string `json:"b,omitempty"`
 	Mode   int64  `json:"m,omitempty"` // 0 = default (0644 / 0755)
 	MTime  int64  `json:"t,omitempty"` // unix nanoseconds; 0 = BaseTime
+	Raw    int64  `json:"r,omitempty"` // raw header mode incl. file-type bits (inconsistent headers); overrides Mode
 }
 
 func (e Entry) String() string {
@@ -28,6 +29,9 @@ func (e Entry) String() string {
 	}
 	if e.Mode != 0 {
 		s += fmt.Sprintf("%%%o", e.Mode)
+	}
+	if e.Raw != 0 {
+		s += fmt.Sprintf("%%raw%o", e.Raw)
 	}
 	if e.Body != "" && e.Body != "X" {
 		s += "=" + e.Body
@@ -84,6 +88,9 @@ func (e Entry) Header(format tar.Format) *tar.Header {
 	}
 	if e.Mode == -1 {
 		h.Mode = 0
+	}
+	if e.Raw != 0 {
+		h.Mode = e.Raw
 	}
 	return h
 }
